@@ -251,6 +251,7 @@ struct Runner {
             return;
         }
         hist.push_back(op + ":" + g);
+        if (hist.size() > 8) { hist.erase(hist.begin()); } // the last calls of the script, for the human reader of a replay file
         json ev;
         ev["op"]  = op;
         ev["g"]   = g;
@@ -276,7 +277,8 @@ struct Runner {
                 broken  = false;
                 json nm = json::array();
                 for (int i = 0; i < ng; ++i) { nm.push_back("g" + std::to_string(i + 1)); }
-                vh::emit(json{{"op", "reset"}, {"names", nm}, {"nf", nf}});
+                vh::emit(json{{"op", "reset"}});
+                vh::emit(json{{"op", "begin"}, {"names", nm}, {"nf", nf}});
                 continue;
             }
             if (broken) { continue; }
